@@ -361,7 +361,7 @@ def run(ctx):
                 "traffic delivered both ways.")
     res.assumptions = ["the client only accepts the first answer to an id it issued from its own port (as a stub resolver would)",
                        "re-deliveries are drawn from inside the server's documented windows (4 answers, 15 data / 30 ping fingerprints, pending queries)"]
-    n = ctx.pick(220, 8000)
+    n = ctx.pick(400, 30000)
     rng = random.Random(ctx.seed * 7877 + 16)
     plist = []
     for i in range(n):
